@@ -88,7 +88,7 @@ pub trait Prop: Sync {
     /// how cases are generated and what makes one non-trivial / distinct
     fn rule(&self) -> String;
     fn assumptions(&self) -> Vec<String>;
-    fn stream_len(&self) -> usize {
+    fn stream_len(&self, _tier: Tier) -> usize {
         256
     }
     fn random_cases(&self, tier: Tier) -> usize;
@@ -394,7 +394,7 @@ fn enum_stage(prop: &dyn Prop, tier: Tier, seed: u64, findings: &Findings, threa
         return (Stats::default(), None);
     }
     let reps = prop.enum_reps(tier).max(1);
-    let len = prop.stream_len();
+    let len = prop.stream_len(tier);
     let next = AtomicU64::new(0);
     let total = prefixes.len() as u64;
     let results: Mutex<(Stats, Option<Failure>)> = Mutex::new((Stats::default(), None));
@@ -452,7 +452,7 @@ fn random_stage(prop: &dyn Prop, tier: Tier, seed: u64, findings: &Findings, thr
     }
     let shards = threads.max(1);
     let per = (total + shards - 1) / shards;
-    let len = prop.stream_len();
+    let len = prop.stream_len(tier);
     let results: Mutex<(Stats, Option<Failure>)> = Mutex::new((Stats::default(), None));
     std::thread::scope(|sc| {
         for shard in 0..shards {
